@@ -390,6 +390,37 @@ def extract_cause_fields():
     return out
 
 
+def extract_registry_types():
+    """the containers the registry keeps its actions in, and what an id is: the sequential model (Model/RegistrySeq)
+    relies on "a map ordered by a numerically ordered id that is handed out in increasing order iterates in
+    registration order" and on "removing one key leaves the others where they are" """
+    src = strip_comments(read("signal-hook-registry/src/lib.rs"))
+    cut = src.find("#[cfg(test)]")
+    if cut >= 0:
+        src = src[:cut]
+    out = []
+    m = re.search(r"((?:#\[[^\]]*\]\s*)*)struct\s+ActionId\s*\(\s*([^)]+?)\s*\)\s*;", src)
+    if not m:
+        raise ExtractError("struct ActionId(..) not found")
+    out.append(("ActionId", re.sub(r"\s+", "", m.group(2))))
+    derives = re.findall(r"derive\(([^)]*)\)", m.group(1))
+    names = [x.strip() for d in derives for x in d.split(",")]
+    out.append(("ActionId.derives.Ord", "true" if "Ord" in names and "PartialOrd" in names else "false"))
+    def field(struct, name):
+        mm = re.search(r"struct\s+%s\s*\{(.*?)\n\}" % struct, src, re.S)
+        if not mm:
+            raise ExtractError("struct %s not found" % struct)
+        f = re.search(r"\b%s\s*:\s*([^\n]+?),\s*(?:\n|$)" % name, mm.group(1))
+        if not f:
+            raise ExtractError("field %s.%s not found" % (struct, name))
+        return re.sub(r"\s+", "", f.group(1))
+    out.append(("Slot.actions", field("Slot", "actions")))
+    out.append(("SignalData.signals", field("SignalData", "signals")))
+    out.append(("SignalData.next_id", field("SignalData", "next_id")))
+    out.append(("SigId.action", field("SigId", "action")))
+    return out
+
+
 def extract_channel_consts():
     src = strip_comments(read("src/low_level/channel.rs"))
     def const(name, ty):
@@ -487,7 +518,8 @@ def extract_orderings():
                     depth -= 1
                 i += 1
             args = src[m.end():i - 1]
-            ords = re.findall(r"Ordering::(\w+)", args)
+            # `Ordering::SeqCst`, or the bare variant when the source imports the variants
+            ords = re.findall(r"(?:\bOrdering::)?\b(Relaxed|Acquire|Release|AcqRel|SeqCst)\b", args)
             if not ords:
                 continue  # not an atomic call (e.g. Vec::swap / HashMap load)
             fn = "?"
@@ -528,7 +560,7 @@ SKELETONS = [
     # the chained call: the special dispositions are excluded first, whatever the flags say; then the flags
     # choose the calling convention
     ("signal-hook-registry/src/lib.rs", "execute#1", [
-        ("guard.special", r"if\s+fptr\s*!=\s*0\s*&&\s*fptr\s*!=\s*libc::SIG_DFL\s*&&\s*fptr\s*!=\s*libc::SIG_IGN\s*\{"),
+        ("guard.special", r"if\s+(?=[^{]*fptr\s*!=\s*0\b)(?=[^{]*fptr\s*!=\s*libc::SIG_DFL\b)(?=[^{]*fptr\s*!=\s*libc::SIG_IGN\b)[^{|]*\{"),
         ("if", r"\bif\b"), ("else", r"\belse\b"), ("siginfo.clear", r"sa_flags\s*&\s*siginfo\s*==\s*0"),
         ("call.1", r"action\s*\(\s*sig\s*\)"), ("call.3", r"action\s*\(\s*sig\s*,\s*info\s*,\s*data\s*\)")]),
     ("src/low_level/channel.rs", "send", [
@@ -550,19 +582,19 @@ SKELETONS = [
         ("poll_pending", r"\.poll_pending\s*\("), ("flush", r"\.flush\s*\("), ("pending", r"\.pending\s*\(")]),
     # built-in actions and glue: what runs inside the delivery, token by token
     ("src/flag.rs", "register", [
-        ("store.true.seqcst", r"flag\.store\s*\(\s*true\s*,\s*Ordering::SeqCst\s*\)"),
-        ("other.atomic", r"flag\.(?!store\s*\(\s*true\s*,\s*Ordering::SeqCst)\w+\s*\("), ("if", r"\bif\b")]),
+        ("store.true.seqcst", r"flag\.store\s*\(\s*true\s*,\s*(?:Ordering::)?SeqCst\s*\)"),
+        ("other.atomic", r"flag\.(?!store\s*\(\s*true\s*,\s*(?:Ordering::)?SeqCst)\w+\s*\("), ("if", r"\bif\b")]),
     ("src/flag.rs", "register_usize", [
-        ("store.value.seqcst", r"flag\.store\s*\(\s*value\s*,\s*Ordering::SeqCst\s*\)"),
-        ("other.atomic", r"flag\.(?!store\s*\(\s*value\s*,\s*Ordering::SeqCst)\w+\s*\("), ("if", r"\bif\b")]),
+        ("store.value.seqcst", r"flag\.store\s*\(\s*value\s*,\s*(?:Ordering::)?SeqCst\s*\)"),
+        ("other.atomic", r"flag\.(?!store\s*\(\s*value\s*,\s*(?:Ordering::)?SeqCst)\w+\s*\("), ("if", r"\bif\b")]),
     ("src/flag.rs", "register_conditional_shutdown", [
-        ("load.seqcst", r"condition\.load\s*\(\s*Ordering::SeqCst\s*\)"),
-        ("other.atomic", r"condition\.(?!load\s*\(\s*Ordering::SeqCst)\w+\s*\("),
+        ("load.seqcst", r"condition\.load\s*\(\s*(?:Ordering::)?SeqCst\s*\)"),
+        ("other.atomic", r"condition\.(?!load\s*\(\s*(?:Ordering::)?SeqCst)\w+\s*\("),
         ("low_level.exit", r"low_level::exit\s*\(\s*status\s*\)"), ("other.exit", r"(?:process::exit|libc::exit|abort)\s*\(")]),
     ("src/flag.rs", "register_conditional_default", [
         ("signal_name.check", r"low_level::signal_name\s*\(\s*signal\s*\)\s*\.ok_or_else"),
-        ("load.seqcst", r"condition\.load\s*\(\s*Ordering::SeqCst\s*\)"),
-        ("other.atomic", r"condition\.(?!load\s*\(\s*Ordering::SeqCst)\w+\s*\("),
+        ("load.seqcst", r"condition\.load\s*\(\s*(?:Ordering::)?SeqCst\s*\)"),
+        ("other.atomic", r"condition\.(?!load\s*\(\s*(?:Ordering::)?SeqCst)\w+\s*\("),
         ("emulate", r"low_level::emulate_default_handler\s*\(\s*signal\s*\)")]),
     ("src/low_level/mod.rs", "exit", [
         ("_exit", r"libc::_exit\s*\(\s*status\s*\)"), ("other.exit", r"(?:process::exit|libc::exit)\s*\(")]),
@@ -731,6 +763,8 @@ def extract_skeletons():
         body = fn_body(src, fn, occ)
         found = []
         for label, rx in toks:
+            # a call broken over several lines ends in `,\n)`: the trailing comma is rustfmt's, not a change
+            rx = rx.replace(r"\s*\)", r"\s*,?\s*\)")
             for m in re.finditer(rx, body):
                 found.append((m.start(), label))
         found.sort()
@@ -819,6 +853,9 @@ def main():
     lines.append("def libFlags : Nat := %d" % libflags)
     lines.append("/-- initial `next_id` in `GlobalData::ensure` -/")
     lines.append("def initialNextId : Nat := %d" % nextid)
+    rtypes = attempt("registry_types", extract_registry_types, [])
+    lines.append("/-- registry: what an id is and which containers hold the actions (signal-hook-registry/src/lib.rs) -/")
+    lines.append("def registryTypes : List (String × String) := [%s]" % ", ".join('("%s", "%s")' % (a, b) for a, b in rtypes))
     lines.append("/-- channel.rs -/")
     lines.append("def SLOTS : Nat := %d" % slots)
     lines.append("def BITS : Nat := %d" % bits)
